@@ -42,7 +42,7 @@ def selftest():
 
 
 def REQUIRED_COVER(tier):
-    return {'kind:short', 'kind:long', 'kind:same', 'noncanonical', 'aug', 'aug_e', 'pruned:inner', 'pruned:root', 'tree-hash', 'label:1023'}
+    return {'kind:short', 'kind:long', 'kind:same', 'noncanonical', 'aug', 'aug_e', 'aug:extra-owns-ref', 'pruned:inner', 'pruned:root', 'tree-hash', 'label:1023'}
 
 
 # ------------------------------------------------------------------ labels
@@ -164,9 +164,16 @@ def shard_trees(rec, width, part, parts, full):
 
 
 # ------------------------------------------------------------------ all valid label-kind assignments + prunings
-def aug_fns():
-    leaf = lambda v: RBITS.uint(int(v[0][:8], 2) & 0xff, 8)
-    fork = lambda a, b: RBITS.uint((int(a, 2) + int(b, 2)) & 0xff, 8)
+def aug_fns(with_ref=False):
+    """extras: 8 bits (leaf: from the value, fork: sum of the children's); with_ref: every extra also OWNS one reference
+    (as a DepthBalanceInfo with extra currencies does) - in a fork cell it comes after the two children"""
+    if not with_ref:
+        leaf = lambda v: RBITS.uint(int(v[0][:8], 2) & 0xff, 8)
+        fork = lambda a, b: RBITS.uint((int(a, 2) + int(b, 2)) & 0xff, 8)
+        return leaf, fork
+    xcell = lambda bits: (bits, (RC.RCell('1100' + bits),))
+    leaf = lambda v: xcell(RBITS.uint(int(v[0][:8], 2) & 0xff, 8))
+    fork = lambda a, b: xcell(RBITS.uint((int(a[0], 2) + int(b[0], 2)) & 0xff, 8))
     return leaf, fork
 
 
@@ -176,7 +183,8 @@ def _parse_all(rec, rc, width, aug, want_leaves, want_extras, fn, args, tag):
     from pytoniq_core.boc.hashmap.parse import parse_hashmap, parse_hashmap_aug
     cell = to_lib(rc)
     xd = lambda s: s.load_uint(8)
-    yd = lambda s: s.load_uint(8)
+    yd = (lambda s: s.load_uint(8)) if aug != 'ref' else (lambda s: (s.load_uint(8), s.load_ref().hash))
+    want_x = (lambda e: int(e, 2)) if aug != 'ref' else (lambda e: (int(e[0], 2), e[1][0].hash()))
     want_int = {k: int(v, 2) for k, v in want_leaves.items()}
     runs = []
     if not aug:
@@ -193,6 +201,8 @@ def _parse_all(rec, rc, width, aug, want_leaves, want_extras, fn, args, tag):
         runs.append(('load_hashmap_aug', lambda: norm(cell.begin_parse().load_hashmap_aug(width, xd, yd))))
         runs.append(('load_hashmap_aug_e', lambda: norm(Builder().store_bit(1).store_ref(cell).store_uint(0xee, 8).end_cell().begin_parse().load_hashmap_aug_e(width, xd, yd))))
         rec.covered('aug', 'aug_e')
+        if aug == 'ref':
+            rec.covered('aug:extra-owns-ref')
     for name, thunk in runs:
         rec.trans()
         try:
@@ -206,8 +216,8 @@ def _parse_all(rec, rc, width, aug, want_leaves, want_extras, fn, args, tag):
             leaves, extras = got
             if leaves != want_int:
                 rec.violation(f'{tag}:leaves:{name}', f'{name}: leaves {leaves}, expected {want_int} ({args})', fn, args)
-            elif list(extras) != [int(e, 2) for e in want_extras]:
-                rec.violation(f'{tag}:extras:{name}', f'{name}: extras {list(extras)}, expected {[int(e, 2) for e in want_extras]} ({args})', fn, args)
+            elif list(extras) != [want_x(e) for e in want_extras]:
+                rec.violation(f'{tag}:extras:{name}', f'{name}: extras {str(list(extras))[:200]}, expected {str([want_x(e) for e in want_extras])[:200]} ({args})', fn, args)
         else:
             if got != want_int:
                 rec.violation(f'{tag}:leaves:{name}', f'{name}: leaves {got}, expected {want_int} ({args})', fn, args)
@@ -226,12 +236,12 @@ def case_assign(rec, width, keys, aug, assign):
     def chooser(path, label, m):
         return amap.get(path) or RH.canonical_kind(label, m)
     try:
-        rc = RH.build(vals, width, chooser=chooser, aug=aug_fns() if aug else None)
+        rc = RH.build(vals, width, chooser=chooser, aug=aug_fns(aug == 'ref') if aug else None)
     except RH.RefDictError:
         return
     if any(assign):
         rec.covered('noncanonical')
-    leaves, extras = RH.parse(rc, width, aug_extra_len=8 if aug else None)
+    leaves, extras = RH.parse(rc, width, aug_extra_len=8 if aug else None, aug_extra_refs=1 if aug == 'ref' else 0)
     assert {k: v[0] for k, v in leaves.items()} == vals
     rec.state(('assign', width, tuple(keys), aug, tuple(assign)))
     rec.nontriv(('assign', width, tuple(keys), aug, tuple(assign)))
@@ -258,9 +268,9 @@ def antichains(rc):
     def variants(c):
         # c kept with each child kept/pruned/varied, or c pruned
         yield RC.prune(c, 1), True
-        if len(c.refs) == 2 and not c.special:
+        if len(c.refs) >= 2 and not c.special:
             for (l, lp), (r, rp) in itertools.product(list(variants(c.refs[0])), list(variants(c.refs[1]))):
-                yield RC.RCell(c.bits, (l, r)), (lp or rp)
+                yield RC.RCell(c.bits, (l, r) + tuple(c.refs[2:])), (lp or rp)
         else:
             yield c, False
     for v, pruned in variants(rc):
@@ -271,13 +281,13 @@ def antichains(rc):
 def case_prune(rec, width, keys, aug, index, _all=False):
     keys = [int(k) for k in keys]
     vals = {k: RBITS.uint((k * 29 + 3) & 0xff, 8) for k in keys}
-    rc = RH.build(vals, width, aug=aug_fns() if aug else None)
+    rc = RH.build(vals, width, aug=aug_fns(aug == 'ref') if aug else None)
     for i, pr in enumerate(antichains(rc)):
         if i != index and not _all:
             continue
         rec.case('prune')
         args = {'width': width, 'keys': keys, 'aug': aug, 'index': i}
-        leaves, extras = RH.parse(pr, width, aug_extra_len=8 if aug else None)
+        leaves, extras = RH.parse(pr, width, aug_extra_len=8 if aug else None, aug_extra_refs=1 if aug == 'ref' else 0)
         want = {k: v[0] for k, v in leaves.items()}
         rec.covered('pruned:root' if pr.special else 'pruned:inner')
         rec.state(('prune', width, tuple(keys), aug, index))
@@ -297,7 +307,7 @@ def shard_valid(rec, width, part, parts, max_keys, full_limit=7):
             continue
         vals = {k: '0' * 8 for k in keys}
         edges = RH.edges(vals, width)
-        for aug in (False, True):
+        for aug in (False, True, 'ref'):
             for assign in assignments(edges, full_limit=full_limit):
                 case_assign(rec, width, keys, aug, assign)
             case_prune(rec, width, keys, aug, -1, _all=True)
